@@ -163,7 +163,7 @@ class Model:
                 if st.get('kind') != 'DeclStmt':
                     continue
                 for d in st.get('inner', []):
-                    if d.get('kind') == 'VarDecl' and d.get('name') not in ('apply_binary_rules', 'apply_unary_rules'):
+                    if d.get('kind') == 'VarDecl' and d.get('name') not in (rn('apply_binary_rules'), rn('apply_unary_rules')):
                         init = [c for c in d.get('inner', []) if c.get('kind')]
                         lam = strip_casts(init[0]) if init else None
                         while lam is not None and lam.get('kind') in ('CXXConstructExpr', 'MaterializeTemporaryExpr', 'ExprWithCleanups') and lam.get('inner'):
@@ -343,6 +343,8 @@ class Model:
                     return None
                 if name == 'size':
                     return z3.Int('agenda_size')
+                if name == 'empty':
+                    return z3.Int('agenda_size') == 0
                 if name == 'push':
                     self.mode['push'](ex, args[0], node)
                     return None
@@ -484,26 +486,135 @@ class BoundCall:
 
 
 # ------------------------------------------------------------------------------ environment of parse_sentence
-def base_env(g):
-    return dict(
-        length=g.length,
-        possible_root_cats=Abstract('rootset'),
-        config=Ptr(Rec('config', dict(num_tags=g.num_tags, unary_penalty=g.penalty, beta=g.beta, use_beta=g.use_beta, pruning_size=g.pruning,
-                                      nbest=g.nbest, max_step=g.max_step))),
-        best_tag_scores=Abstract('vector', name='best_tag_scores', size=g.length, fn=g.BT),
-        best_dep_scores=Abstract('vector', name='best_dep_scores', size=g.length, fn=g.BD),
-        tag_out_scores=Abstract('matrix', name='tag_out_scores', rows=g.length + 1, cols=g.length + 1, fn=g.tagout),
-        dep_out_scores=Abstract('matrix', name='dep_out_scores', rows=g.length + 1, cols=g.length + 1, fn=g.depout),
-        tag_in_scores=Abstract('matrix', name='tag_in_scores', rows=g.length, cols=g.num_tags, fn=g.tag),
-        dep_in_scores=Abstract('matrix', name='dep_in_scores', rows=g.length, cols=g.length + 1, fn=g.dep),
-        agenda=Abstract('agenda'),
-        scored_cats=Abstract('scored_cats'),
-        chart=Abstract('chart', name='chart'),
-        goal=Abstract('chart', name='goal'),
-        apply_binary_rules=Abstract('apply_binary'),
-        apply_unary_rules=Abstract('apply_unary'),
-        dep_leaf_out_score=g.Pdep(g.length),
-    )
+_ROLES = {}
+
+
+def parse_sentence_roles(ast):
+    """the parameters and top-level locals of parse_sentence by ROLE (position in the signature the Cython side declares; type and initialiser of a local),
+    so that renaming a local is not a change the contracts notice:
+      parameters   0 tag_scores, 1 dep_scores, 2 length, 3 possible_root_cats, 4 binary_callback, 5 unary_callback, 6 finalizer_callback, 7 scaffold, 8 finalizer_args, 9 cache, 10 config
+      locals       the two vector<float> in declaration order (best tag / best head scores), the matrices (views of the two score parameters; the two owning ones in
+                   declaration order: tag / dep outside scores), the agenda (priority_queue of cell_item), the per-token candidate queues (vector of priority queues),
+                   the two charts (the one built with the literal 1 is the goal), the one non-const float (outside score of the leaves), the two rule lambdas (by the
+                   callback parameter they hand to scaffold), const scalars (evaluated from their initialisers)"""
+    key = id(ast)
+    if key in _ROLES:
+        return _ROLES[key]
+    fn = ast.function('parse_sentence')
+    params = [c['name'] for c in fn.get('inner', []) if c.get('kind') == 'ParmVarDecl']
+    if len(params) != 11:
+        raise CheckerError(f'parse_sentence has {len(params)} parameters (the Cython declaration has 11)')
+    pr = dict(zip(['tag_scores', 'dep_scores', 'length', 'possible_root_cats', 'binary_callback', 'unary_callback', 'finalizer_callback', 'scaffold', 'finalizer_args', 'cache', 'config'], params))
+    R = dict(pr)
+    decls = [d for st in body_of(fn).get('inner', []) if st.get('kind') == 'DeclStmt' for d in st.get('inner', []) if d.get('kind') == 'VarDecl']
+
+    def ty(d):
+        t = d.get('type', {})
+        return (t.get('desugaredQualType') or t.get('qualType', '')), t.get('qualType', '')
+
+    def walk(n):
+        if isinstance(n, dict):
+            yield n
+            for c in n.get('inner', []) or []:
+                yield from walk(c)
+
+    def refs(d):
+        return {n['referencedDecl'].get('name') for n in walk(d) if n.get('kind') == 'DeclRefExpr' and 'referencedDecl' in n}
+
+    def ctor_args(d):
+        for n in walk(d):
+            if n.get('kind') == 'CXXConstructExpr':
+                return [a for a in n.get('inner', []) if 'kind' in a and a['kind'] != 'CXXDefaultArgExpr']
+        return []
+    vf, owning, charts, floats, consts = [], [], [], [], []
+    for d in decls:
+        t, tq = ty(d)
+        bare = t.replace('const ', '').strip()
+        is_const = tq.strip().startswith('const ')
+        if any(n.get('kind') == 'LambdaExpr' for n in walk(d)):
+            r = refs(d)
+            if pr['binary_callback'] in r and pr['unary_callback'] not in r:
+                R['apply_binary_rules'] = d['name']
+            elif pr['unary_callback'] in r and pr['binary_callback'] not in r:
+                R['apply_unary_rules'] = d['name']
+            continue
+        if bare.startswith('std::vector<float'):
+            vf.append(d['name'])
+        elif bare == 'parsing::matrix' or bare.endswith('::matrix') or bare == 'matrix':
+            args = ctor_args(d)
+            r0 = refs(args[0]) if args else set()
+            if len(args) == 3 and pr['tag_scores'] in r0:
+                R['tag_in_scores'] = d['name']
+            elif len(args) == 3 and pr['dep_scores'] in r0:
+                R['dep_in_scores'] = d['name']
+            else:
+                owning.append(d['name'])
+        elif 'priority_queue<parsing::cell_item' in bare or 'priority_queue<cell_item' in bare:
+            R['agenda'] = d['name']
+        elif bare.startswith('std::vector<std::priority_queue'):
+            R['scored_cats'] = d['name']
+        elif bare == 'parsing::chart' or bare.endswith('::chart'):
+            args = ctor_args(d)
+            lit = bool(args) and strip_casts(args[0]).get('kind') == 'IntegerLiteral'
+            charts.append((d['name'], lit))
+        elif bare == 'float' and not is_const:
+            floats.append(d['name'])
+        elif is_const and bare in ('unsigned int', 'unsigned', 'int', 'bool', 'float', 'double', 'category_id'):
+            init = [c for c in d.get('inner', []) if c.get('kind')]
+            if init:
+                consts.append((d['name'], init[0]))
+    if len(vf) != 2 or len(owning) != 2 or len(charts) != 2 or len(floats) != 1:
+        raise CheckerError(f'parse_sentence: locals by role not found (vector<float>: {vf}, owning matrices: {owning}, charts: {[c for c, _ in charts]}, non-const floats: {floats})')
+    R['best_tag_scores'], R['best_dep_scores'] = vf
+    R['tag_out_scores'], R['dep_out_scores'] = owning
+    goal = [c for c, lit in charts if lit]
+    R['goal'] = goal[0] if len(goal) == 1 else charts[1][0]
+    R['chart'] = [c for c, _ in charts if c != R['goal']][0]
+    R['dep_leaf_out_score'] = floats[0]
+    missing = [k for k in ('tag_in_scores', 'dep_in_scores', 'agenda', 'scored_cats', 'apply_binary_rules', 'apply_unary_rules') if k not in R]
+    if missing:
+        raise CheckerError(f'parse_sentence: locals by role not found: {missing}')
+    R['$consts'] = consts
+    _ROLES.clear()
+    _ROLES[key] = R
+    _ROLES['current'] = R
+    return R
+
+
+def rn(role):
+    """the name parse_sentence gives to the variable in this role (parse_sentence_roles must have run)"""
+    return _ROLES['current'][role]
+
+
+def base_env(g, ex=None):
+    R = _ROLES['current']
+    env = {
+        R['length']: g.length,
+        R['possible_root_cats']: Abstract('rootset'),
+        R['config']: Ptr(Rec('config', dict(num_tags=g.num_tags, unary_penalty=g.penalty, beta=g.beta, use_beta=g.use_beta, pruning_size=g.pruning,
+                                            nbest=g.nbest, max_step=g.max_step))),
+        R['best_tag_scores']: Abstract('vector', name='best_tag_scores', size=g.length, fn=g.BT),
+        R['best_dep_scores']: Abstract('vector', name='best_dep_scores', size=g.length, fn=g.BD),
+        R['tag_out_scores']: Abstract('matrix', name='tag_out_scores', rows=g.length + 1, cols=g.length + 1, fn=g.tagout),
+        R['dep_out_scores']: Abstract('matrix', name='dep_out_scores', rows=g.length + 1, cols=g.length + 1, fn=g.depout),
+        R['tag_in_scores']: Abstract('matrix', name='tag_in_scores', rows=g.length, cols=g.num_tags, fn=g.tag),
+        R['dep_in_scores']: Abstract('matrix', name='dep_in_scores', rows=g.length, cols=g.length + 1, fn=g.dep),
+        R['agenda']: Abstract('agenda'),
+        R['scored_cats']: Abstract('scored_cats'),
+        R['chart']: Abstract('chart', name='chart'),
+        R['goal']: Abstract('chart', name='goal'),
+        R['apply_binary_rules']: Abstract('apply_binary'),
+        R['apply_unary_rules']: Abstract('apply_unary'),
+        R['dep_leaf_out_score']: g.Pdep(g.length),
+    }
+    if ex is not None:
+        # const scalars declared at the top level of parse_sentence (e.g. `const bool keep_duplicates = config->nbest > 1`): their initialisers, evaluated here
+        for name, init in R['$consts']:
+            try:
+                env[name] = ex.ev(init, env)
+            except CheckerError:
+                pass
+    return env
 
 
 def find_loops(fn):
@@ -530,6 +641,7 @@ def config_frame(g, env0_config, cfg):
 
 # ------------------------------------------------------------------------------ phase A: one arbitrary iteration of the search loop
 def run_main_loop(ast):
+    parse_sentence_roles(ast)
     g = Ghost()
     m = Model(ast, g)
     fn = ast.function('parse_sentence')
@@ -554,7 +666,7 @@ def run_main_loop(ast):
     def run():
         m.pushes, m.goal_updates = [], []
         m.loop_stack, m.range_events, m.chart_key = [], [], None
-        env = base_env(g)
+        env = base_env(g, ex)
         top = new_item(ex, 'top', m.fields)
         state = dict(top=top, chart_item=None, others=[])
 
@@ -617,8 +729,13 @@ def run_main_loop(ast):
         m.mode['range'] = lambda ex_, st, env_, rng: (_ for _ in ()).throw(CheckerError('range-for over an unmodelled container'))
         for f in g.base_facts():
             ex.assume(f)
-        env['s'] = ex.fresh('s', I_)
-        cfg0 = dict(env['config'].target.f)
+        # the step counter of the search loop, by role (declared in the init of a for loop / first local named in the condition of a while loop)
+        if loop.get('kind') == 'ForStmt':
+            from contracts.parsing_h_helpers import counter_of
+            step_name = counter_of(loop)
+            if step_name not in env:
+                env[step_name] = ex.fresh('step', I_)
+        cfg0 = dict(env[rn('config')].target.f)
         c = ex.truth(ex.ev(cond, env))
         ex.assume(c)
         try:
@@ -627,7 +744,7 @@ def run_main_loop(ast):
             pass
         except _Break:
             pass
-        ex.oblige('frame-config', config_frame(g, cfg0, env['config'].target), loop,
+        ex.oblige('frame-config', config_frame(g, cfg0, env[rn('config')].target), loop,
                   'an iteration of the search loop leaves every field of *config as it found it (parsing.pyx hands one config to all sentences of a run)')
         return 'iteration', dict(pushes=list(m.pushes), goal_updates=list(m.goal_updates), top=top, facts=facts_for, events=list(m.range_events),
                                  item=state['chart_item'], others=list(state['others']), filed=m.chart_key is not None)
@@ -813,6 +930,7 @@ def find_const(pc, prefix):
 
 # ------------------------------------------------------------------------------ phase B: leaf items (supertag beam)
 def run_leaf_loop(ast):
+    parse_sentence_roles(ast)
     g = Ghost()
     m = Model(ast, g)
     fn = ast.function('parse_sentence')
@@ -824,7 +942,7 @@ def run_leaf_loop(ast):
 
     def run():
         m.pushes = []
-        env = base_env(g)
+        env = base_env(g, ex)
         tok = ex.fresh('token_id', I_)
         # outer loop: an arbitrary iteration (the loop counter is the only state it carries)
         init = parts[0]
@@ -938,12 +1056,12 @@ def run_leaf_loop(ast):
         m.mode['chart_update'] = None
         m.mode['chart_item'] = None
         m.mode['range'] = None
-        cfg0 = dict(env['config'].target.f)
+        cfg0 = dict(env[rn('config')].target.f)
         try:
             ex.run(parts[-1], env)
         except (_Break, _Continue):
             pass
-        ex.oblige('frame-config', config_frame(g, cfg0, env['config'].target), loop,
+        ex.oblige('frame-config', config_frame(g, cfg0, env[rn('config')].target), loop,
                   'an iteration of the leaf loop leaves every field of *config as it found it')
         return 'iteration', dict(pushes=list(m.pushes), st=dict(st), tok=tok, env_threshold=env.get('threshold'))
     outs = explore(ex, run)
@@ -1004,6 +1122,7 @@ def run_lambdas(ast):
     """apply_binary_rules / apply_unary_rules (lines 280-306): on a cache miss the vector filled by scaffold for (callback, x, y) is stored
     unchanged under the key and a pointer to the stored vector is returned; on a hit nothing is called.  Any other use of the vector
     between scaffold and emplace (an unmodelled call that receives it) counts as tampering."""
+    parse_sentence_roles(ast)
     g = Ghost()
     m = Model(ast, g)
     fn = ast.function('parse_sentence')
@@ -1026,7 +1145,7 @@ def run_lambdas(ast):
                     lam = find_lambda(d)
                     if lam is not None:
                         lambdas.append((d['name'], lam))
-    want = {'apply_binary_rules': 'binary_callback', 'apply_unary_rules': 'unary_callback'}
+    want = {rn('apply_binary_rules'): 'binary_callback', rn('apply_unary_rules'): 'unary_callback'}
     # other lambdas of parse_sentence are executed in place where they are called (Model.inline_lambda); the two rule-cache lambdas are verified here
     lambdas = [(n, lam) for n, lam in lambdas if n in want]
     if sorted(n for n, _ in lambdas) != sorted(want):
@@ -1059,9 +1178,9 @@ def _lambda_records(ast, m, g, name, cbname, lbody, params):
         dec = work.pop()
         ex.reset(dec)
         log = dict(scaffold=[], emplace=[], at=[], tamper=[], hit=None, thrown=False)
-        env = base_env(g)          # a [&] lambda sees every variable of parse_sentence
-        env.update(cache=Ptr(Abstract('cache')), scaffold=Abstract('fnptr', name='scaffold'), binary_callback=Abstract('cb', name='binary_callback'),
-                   unary_callback=Abstract('cb', name='unary_callback'))
+        env = base_env(g, ex)      # a [&] lambda sees every variable of parse_sentence
+        env.update({rn('cache'): Ptr(Abstract('cache')), rn('scaffold'): Abstract('fnptr', name='scaffold'), rn('binary_callback'): Abstract('cb', name='binary_callback'),
+                    rn('unary_callback'): Abstract('cb', name='unary_callback')})
         args = {p: ex.fresh(p, I_) for p in params}
         env.update(args)
 
@@ -1182,6 +1301,7 @@ def run_final_region(ast):
       final-sorted   the goal cell is sorted (cell::sort, whose comparator is proved to be `higher score first` by the helper contract) before it is walked and not touched afterwards (C10)
       final-each     the walk visits the items of the goal cell (0, 0), each iteration hands the address of the visited item, a token counter that starts at 0,
                      the rule cache and the caller's argument to the finalizer exactly once, no iteration leaves the loop early (C10, C02)"""
+    parse_sentence_roles(ast)
     g = Ghost()
     m = Model(ast, g)
     fn = ast.function('parse_sentence')
@@ -1200,9 +1320,9 @@ def run_final_region(ast):
         ex.reset(dec)
         ex.assume(gsize >= 0)
         log = dict(order=[], walks=[], calls=[], other=[])
-        env = base_env(g)
-        env.update(cache=Ptr(Abstract('cache')), finalizer_callback=Abstract('fnptr', name='finalizer_callback'), finalizer_args=Abstract('finalizer_args'),
-                   scaffold=Abstract('fnptr', name='scaffold'), binary_callback=Abstract('cb', name='binary_callback'), unary_callback=Abstract('cb', name='unary_callback'))
+        env = base_env(g, ex)
+        env.update({rn('cache'): Ptr(Abstract('cache')), rn('finalizer_callback'): Abstract('fnptr', name='finalizer_callback'), rn('finalizer_args'): Abstract('finalizer_args'),
+                    rn('scaffold'): Abstract('fnptr', name='scaffold'), rn('binary_callback'): Abstract('cb', name='binary_callback'), rn('unary_callback'): Abstract('cb', name='unary_callback')})
 
         def chart_size(obj):
             return gsize if obj.name == 'goal' else z3.Int(obj.name + '_size')
@@ -1311,14 +1431,19 @@ def config_frame_scan(ast):
     """every occurrence of the parameter `config` in parse_sentence (lambdas included) must be the base of a member READ:
     DeclRefExpr config -> [LValueToRValue] -> MemberExpr -> LValueToRValue cast. Anything else (store, ++/--, compound assignment, address taken,
     handed to a call, copied into another pointer) is reported: the object is shared by all sentences of a run (parsing.pyx: one c_config per run)."""
+    parse_sentence_roles(ast)
     fn = ast.function('parse_sentence')
     sites, bad = [], []
 
     def walk(n, anc):
         if not isinstance(n, dict):
             return
-        if n.get('kind') == 'DeclRefExpr' and n.get('referencedDecl', {}).get('name') == 'config' and n['referencedDecl'].get('kind') == 'ParmVarDecl':
+        if n.get('kind') == 'DeclRefExpr' and n.get('referencedDecl', {}).get('name') == rn('config') and n['referencedDecl'].get('kind') == 'ParmVarDecl':
             chain = [a for a in reversed(anc)]
+            if chain and chain[0].get('kind') == 'LambdaExpr':
+                # the capture list of a lambda (clang lists every captured variable under the LambdaExpr): capturing the pointer is not a use of *config;
+                # what the body does with it is scanned like everything else
+                return
             i = 0
             while i < len(chain) and chain[i].get('kind') in ('ImplicitCastExpr', 'ParenExpr') and chain[i].get('castKind', 'LValueToRValue') in ('LValueToRValue', 'NoOp'):
                 i += 1
